@@ -153,6 +153,18 @@ func Run(r *fw.Run) {
 		for j := range dims {
 			dims[j] = len(cs)
 		}
+		if k >= 4 {
+			// sets of four (thorough tier): the first ten names and the short contents only
+			for _, x := range sub {
+				if x >= 10 {
+					r.Merge(l)
+					return
+				}
+			}
+			for j := range dims {
+				dims[j] = len(cs) - 1
+			}
+		}
 		local := map[string]string{}
 		enum.Product(dims, func(ci []int) {
 			l.States++
